@@ -106,7 +106,7 @@ Section Refine.
 
   Theorem step_refines l o : step_i norm rh md_get_other l o = step_s norm l o.
   Proof.
-    destruct o as [k v|k v|k|k d| |k d|u|u|u| |]; cbn.
+    destruct o as [k v|k v|k|k d| |k d|u|u|u| | |]; cbn.
     - rewrite setitem_refines. reflexivity.
     - reflexivity.
     - rewrite del_refines. destruct (contains_s norm k l); reflexivity.
@@ -117,6 +117,7 @@ Section Refine.
       destruct (getall_s norm k l) as [|v vs]; cbn; [|reflexivity]. destruct d; reflexivity.
     - rewrite update_refines. reflexivity.
     - unfold update_md_i. rewrite update_md_go_refines. reflexivity.
+    - reflexivity.
     - reflexivity.
     - reflexivity.
     - reflexivity.
